@@ -497,6 +497,8 @@ fn gen_bridge(mut input: ItemMod) -> ItemMod {
         }
 
         Item::Impl(i) => {
+            // impl blocks can carry `abi_rename`/`attr`/`cfg` attributes that methods inherit
+            let _attrs = AttributeInfo::extract(&mut i.attrs);
             for item in &mut i.items {
                 if let syn::ImplItem::Fn(ref mut m) = *item {
                     let info = AttributeInfo::extract(&mut m.attrs);
@@ -509,6 +511,14 @@ fn gen_bridge(mut input: ItemMod) -> ItemMod {
                             syn::FnArg::Typed(t) => AttributeInfo::extract(&mut t.attrs),
                         };
                     }
+                }
+            }
+        }
+        Item::Trait(t) => {
+            let _attrs = AttributeInfo::extract(&mut t.attrs);
+            for item in &mut t.items {
+                if let syn::TraitItem::Fn(ref mut m) = *item {
+                    let _attrs = AttributeInfo::extract(&mut m.attrs);
                 }
             }
         }
